@@ -3,6 +3,7 @@ import vf
 vf.use_repo()
 from ak import llparser  # noqa: E402
 from vf import gram, llmon  # noqa: E402
+from vf.checks import c01  # noqa: E402
 from vf.core import sig_of  # noqa: E402
 from vf.checks.c01 import build_inputs  # noqa: E402
 
@@ -78,19 +79,22 @@ def make_case(rng):
     return cfg_id, terms, prods, kind
 
 
-def run_case(ctx, mon, cfg_id, terms, prods, inputs_spec=None, rng=None):
+def run_case(ctx, mon, cfg_id, terms, prods, inputs_spec=None, rng=None, any_spec=None):
     cfg = llmon.TOKCFGS[cfg_id]
     start = 'E'
     if gram.left_recursion_cycle(prods):
         ctx.count("grammars_left_recursive(skipped)")
         return None
-    base_case = {"cfg": cfg_id, "terms": terms,
+    if any_spec:
+        ctx.count("grammars_with_AnyTokenExcept")
+    base_case = {"cfg": cfg_id, "terms": terms, "any_token_except": any_spec,
                  "prods": {k: [list(a) for a in v] for k, v in prods.items()}}
     parsers = {}
     ctor_error = None
     for smart in (True, False):
         try:
-            parsers[smart] = cfg.make_parser(prods, start, smart_factorization=smart)
+            parsers[smart] = cfg.make_parser(c01.ctor_productions(cfg, prods, any_spec), start,
+                                             smart_factorization=smart)
         except AssertionError:
             ctx.count("ctor_assert(out of domain)")
         except llparser.GrammarError as err:
@@ -222,7 +226,12 @@ def run_shard(ctx):
             rng = ctx.rng(i)
             cfg_id, terms, prods, kind = make_case(rng)
             ctx.count(f"generator_{kind}")
-            spec = run_case(ctx, mon, cfg_id, terms, prods, rng=rng)
+            any_spec = None
+            if rng.random() < 0.1 and "SPACE" not in llmon.TOKCFGS[cfg_id].terminals:
+                # one symbol gets the pseudo production AnyTokenExcept(...) (`prods` holds what it stands for)
+                any_spec = c01.add_any_token_except(rng, llmon.TOKCFGS[cfg_id], prods)
+                terms = list(llmon.TOKCFGS[cfg_id].terminals)
+            spec = run_case(ctx, mon, cfg_id, terms, prods, rng=rng, any_spec=any_spec)
             if spec and i % 50 == 1:
                 ctx.sample({"tokenizer": llmon.TOKCFGS[cfg_id].name, "grammar": gram.fmt_grammar(prods),
                             "ll1": gram.is_ll1(prods, 'E'), "tokens": spec[0][0],
@@ -237,6 +246,7 @@ def replay(ctx, case):
         prods = {k: [tuple(a) for a in v] for k, v in case["prods"].items()}
         inputs = case["inputs"] or None
         rng = ctx.rng(0)
-        run_case(ctx, mon, case["cfg"], case["terms"], prods, inputs_spec=inputs, rng=rng)
+        run_case(ctx, mon, case["cfg"], case["terms"], prods, inputs_spec=inputs, rng=rng,
+                 any_spec=case.get("any_token_except"))
     finally:
         mon.close()
